@@ -285,6 +285,8 @@ def iteration_weight(f: FuncInfo, name: str) -> Tuple[int, List[ast.AST]]:
             return
         if isinstance(n, ast.Call) and call_name(n) in _CONSUMERS and any(isinstance(a, ast.Name) and a.id == name for a in n.args):
             sites.append((n, in_loop))
+        elif isinstance(n, ast.Call) and in_loop and any(isinstance(a, ast.Name) and a.id == name for a in list(n.args) + [k.value for k in n.keywords]):
+            sites.append((n, True))  # handed to a callee once per trip: each callee may walk it
         for c in ast.iter_child_nodes(n):
             walk(c, in_loop)
 
@@ -309,3 +311,21 @@ def one_shot_sources(f: FuncInfo, e: ast.AST, depth: int = 3) -> List[ast.AST]:
                 out += one_shot_sources(f, v, depth - 1)
         return out
     return []
+
+
+def shared_argument_obligations(ctx: Any, R: str, g: FuncInfo, what: str) -> List[Ob]:
+    """For every parameter of g that may be walked more than once per call (iterated in a loop, or handed to a callee once
+    per trip of a loop -- e.g. to each listener in turn): every call site passes something re-iterable."""
+    obs: List[Ob] = []
+    for p in g.params[1:] if g.cls is not None else g.params:
+        w8, where = iteration_weight(g, p)
+        if w8 < 2:
+            continue
+        for cs in ctx.cg.callers_of(g):
+            idx = g.params.index(p) - (1 if g.cls is not None and isinstance(cs.node.func, ast.Attribute) else 0)
+            arg = cs.node.args[idx] if 0 <= idx < len(cs.node.args) else next((k.value for k in cs.node.keywords if k.arg == p), None)
+            if arg is None:
+                continue
+            src = one_shot_sources(cs.caller, arg)
+            obs.append(ob(R, cs.caller, cs.node, f'`{p}` of {g.name} is {what}, so the argument must be re-iterable', not src, f'`{norm(src[0])[:70]}` is a one-shot iterator: the first consumer exhausts it' if src else ''))
+    return obs
